@@ -608,14 +608,14 @@ def prove_lemmas(modname):
             hs, g = instance(vars_)
             ind = lem["induct"]
             statuses = []
-            if ind is None:
+            def instance_facts(env_now):
                 # explicit (quantifier-free) instances of earlier lemmas: ("name", {var: expression over this lemma's variables})
                 facts = []
                 for lname, binding in (lem.get("instances") or []):
                     if lname not in proved:
                         raise Unsupported("instance of unproved lemma %s" % lname)
                     other = next(l for l in sm.lemmas if l["name"] == lname)
-                    st0 = State(dict(vars_))
+                    st0 = State(dict(env_now))
                     env2 = {vn: coerce(ev.ev_str(src, st0), other["vars"][vn]) for vn, src in binding.items()}
                     missing_v = [vn for vn in other["vars"] if vn not in env2]
                     if missing_v:
@@ -624,7 +624,9 @@ def prove_lemmas(modname):
                     hh = [truthy(ev.ev_str(h, st2)) for h in other["hyps"]]
                     gg = truthy(ev.ev_str(other["goal"], st2))
                     facts.append(z3.Implies(z3.And(*hh), gg) if hh else gg)
-                r = check_valid(hs + facts, g, used, want_model=False, max_fuel=lem.get("fuel", 3))
+                return facts
+            if ind is None:
+                r = check_valid(hs + instance_facts(vars_), g, used, want_model=False, max_fuel=lem.get("fuel", 3))
                 statuses.append(r["status"])
             else:
                 v = vars_[ind]
@@ -687,7 +689,7 @@ def prove_lemmas(modname):
                     qv = [bound[n].t for n in others if bound[n].ty is not NONE]
                     ihs.append(z3.ForAll(qv, body) if qv else body)
                 # nested induction hypotheses for sub-structures named in hints are given as extra instances
-                extra = vars_extra if (isinstance(T, SeqT) or T is STR) else []
+                extra = (vars_extra if (isinstance(T, SeqT) or T is STR) else []) + instance_facts(env)
                 if lem.get("cases"):
                     # the step is proved once per case (each under its own hypothesis); the cases must be exhaustive
                     st_cons = State(dict(env))
